@@ -19,6 +19,10 @@ What the Go code does (read line by line, pinned tree):
   - per location: `!reachedBefore && sig == *before` → set, `continue`; `!reachedBefore` → `continue`;
     `Count() >= limit` → `break epochLoop`; append to `transactions[epochNum]`; `sig == *until` → `break epochLoop`.
   - `before` given but never met: nothing is ever appended — the answer is empty, not an error.
+  - (since the C03 fix) the fetcher may answer `ErrNotForAddress` when the transaction it loaded does not mention
+    the address — the 24-bit pubkey index landed on another address's chain — and the loop then does
+    `continue epochLoop`.  A chain holds the entries of one key only, so this happens at the first entry or never:
+    such an epoch is `Lookup.notFound` in the model (by reading; a hash collision cannot be forced by the harness).
 * the result is a Go map `epoch → []tx`.  The model keeps the *tagged sequence* `(epoch, tx)` in append order:
   the map is exactly its grouping (`group`), `Count()` is its length.
 * `iterBeforeUntilSlot(before, until)`: `limit <= 0 || before < until` → empty; epochs with
